@@ -41,5 +41,7 @@ def churn_then_replay(ctx, owner, name, make_args, early, again, n_quick=140_000
         ctx.count("churn:%s raw requests that raised" % name, failures)
     for item in early.items:
         again(item)
-        ctx.tag("history: asked again after %s other distinct requests" % ("100000+" if n >= 100_000 else "many"))
+        ctx.tag("history: asked again after many other distinct requests")
+        if n >= 100_000:
+            ctx.tag("history: asked again after 100000+ other distinct requests")
     assert contracts  # keep the import (contracts stay installed while the churn runs)
